@@ -23,7 +23,7 @@ def generate(mode, k, sc, tag=""):
     return worlds_path, cases_path, len(r.cases), r
 
 
-def serve(worlds_path, cases_path, sc, obs="full", triple=False, stats=True, tag=""):
+def serve(worlds_path, cases_path, sc, obs="full", triple=False, stats=True, tag="", wire=False):
     trace = sc.path("trace%s.ndjson" % tag)
     scratch = sc.path("trees%s" % tag)
     os.makedirs(scratch, exist_ok=True)
@@ -32,6 +32,8 @@ def serve(worlds_path, cases_path, sc, obs="full", triple=False, stats=True, tag
         args.append("--triple")
     if stats:
         args.append("--stats")
+    if wire:
+        args += ["--bin", vlib.build_rws_binary()]
     vlib.run_harness(args, timeout=3000)
     return trace
 
@@ -50,7 +52,7 @@ def judge(prop, cfg, trace, verdict, signature, heap="8g"):
                 continue
             e = events[f["i"]]
             e["_detail"] = f.get("detail")
-            verdict.reject(signature(mine, e), {"clauses": mine, "detail": f.get("detail"), "target": e.get("target"), "q": e["q"],
+            verdict.reject(signature(mine, e), {"clauses": mine, "surface": e.get("surface", "in-process"), "detail": f.get("detail"), "target": e.get("target"), "q": e["q"],
                                                 "status": e["r"].get("status"), "outcome": e["r"].get("outcome"),
                                                 "panic_at": e["r"].get("loc"), "event_index": f["i"]})
     return tv
@@ -91,3 +93,17 @@ def count_events(trace):
             ev = line[i + 6:line.find('"', i + 6)]
             n[ev] = n.get(ev, 0) + 1
     return n
+
+
+def sample_cases(cases_path, out_path, every=1, entry="prod"):
+    """every k-th case of the given entry point (for the wire surface)"""
+    n = kept = 0
+    with open(cases_path) as f, open(out_path, "w") as o:
+        for line in f:
+            if '"entry":"%s"' % entry not in line:
+                continue
+            n += 1
+            if n % every == 0:
+                o.write(line)
+                kept += 1
+    return kept
